@@ -97,3 +97,16 @@ Proof. reflexivity. Qed.
 Lemma h2_write_headers_go_as_modelled :
   src_h2_writeHeaders = bs "{ first := true for len(hdrs) > 0 && cc.werr == nil { chunk := hdrs max := maxFrameSize if first && !cc.t.HeaderPriority.IsZero() && max > 5 { max -= 5 } if len(chunk) > max { chunk = chunk[:max] } hdrs = hdrs[len(chunk):] endHeaders := len(hdrs) == 0 if first { cc.fr.WriteHeaders(HeadersFrameParam{StreamID: streamID, BlockFragment: chunk, EndStream: endStream, EndHeaders: endHeaders, Priority: cc.t.HeaderPriority}) first = false } else { cc.fr.WriteContinuation(streamID, endHeaders, chunk) } } cc.bw.Flush() return cc.werr }".
 Proof. reflexivity. Qed.
+
+(* round 6 *)
+(* http2 encodeAndWriteHeaders asks "cancelled meanwhile?" BEFORE the connection's HPACK encoder runs
+   (h2_step_fate, not h2_step_fate_late) *)
+Lemma h2_cancel_check_precedes_encoding : (h2_src_cancel_check_offset <? h2_src_encode_call_offset)%N = true.
+Proof. vm_compute. reflexivity. Qed.
+
+(* http3 WriteRequestHeader encodes into a private buffer and copies it to the stream afterwards; the
+   connection-wide header buffer is emptied by writeHeaders' deferred Reset (src_h3_writeHeaders above:
+   h3w_step) *)
+Lemma h3_write_request_header_go_as_modelled :
+  src_h3_WriteRequestHeader = bs "{ buf := &bytes.Buffer{} if err := w.writeHeaders(buf, req, gzip, dumps); err != nil { return err } _, err := str.Write(buf.Bytes()) return err }".
+Proof. reflexivity. Qed.
